@@ -47,6 +47,7 @@ def run(F, R):
     h1_begin_finish(F, R)
     qctor = [b['id'] for b in queue_entry_points(F, M) if b.get('sig', '').find('-> core::result::Result<%s<' % M.queue_adt) >= 0]
     ctors = h1_constructors(F, R, M, qctor)
+    queue_ctor_flags(F, R, M)
     h2_supported(F, R, ctors)
     h2_constants(F, R)
     h4_gated(F, R, M)
@@ -509,6 +510,41 @@ def fold_phi(fo, t):
             return vals.pop()
         raise Unfoldable('phi')
     return fo.ev(t)
+
+
+def queue_ctor_flags(F, R, M, rule='H3'):
+    """The queue keeps the modes it was constructed with: every boolean field of the queue value built by its constructor is one
+    of the constructor's boolean parameters, unmodified, and different fields take different parameters - a mode that is
+    additionally made to depend on the transport (`event_idx && !legacy`) no longer follows the negotiated feature."""
+    n = 0
+    for b in queue_entry_points(F, M):
+        if b.get('sig', '').find('-> core::result::Result<%s<' % M.queue_adt) < 0:
+            continue
+        sg = supergraph(F, b['id'], tag='flat', max_depth=0)
+        S = sg.sym
+        fn_ = sg.entry_fn
+        bparams = [i + 1 for i, l_ in enumerate(fn_['locals'][1:fn_['arg_count'] + 1]) if l_['ty'] == 'bool']
+        for nd in sg.nodes:
+            if nd.kind != 'assign' or nd.d['rv']['rv'] != 'agg' or nd.d['rv'].get('adt') != M.queue_adt:
+                continue
+            rv = nd.d['rv']
+            btys = {f_['name'] for f_ in F.adts[M.queue_adt]['variants'][0]['fields'] if f_['ty'] == 'bool'}
+            used = {}
+            bad = None
+            for f_, o_ in zip(rv['fields'], rv['ops']):
+                if f_ not in btys:
+                    continue
+                v = strip_conv(S.operand(nd.id, o_))
+                n += 1
+                if not (v[0] == 'param' and v[1] in bparams):
+                    bad = 'mode flag `%s` is stored as %s, not as the constructor\'s argument' % (f_, fmt(v)[:80])
+                elif v[1] in used:
+                    bad = 'mode flags `%s` and `%s` are both taken from argument %d' % (used[v[1]], f_, v[1])
+                else:
+                    used[v[1]] = f_
+            R.check(bad is None, rule, '%s:ctor-flags-are-arguments' % b['id'], site(sg, nd), 'each boolean mode field is its own constructor argument',
+                    'queue construction: %s - the queue then runs in a mode that does not follow the negotiated feature' % bad)
+    R.count('queue_mode_flags', n)
 
 
 @shared_rule
